@@ -60,6 +60,12 @@ func vRunScript(script []byte, update bool, actual string, fsys *vfs.FS) *vT {
 func VerifC16Update() {
 	names := []string{"g0.txt", "sub/g1.txt"}
 	gold := [][]byte{vGolden(rt.Param("G", 2)), vGolden(rt.Param("G", 2))}
+	// a further entry whose name contains a variable reference (expanded only for the file on disk)
+	if rt.Bool() {
+		names = append(names, "x$NOSUCHVAR.txt")
+		gold = append(gold, []byte("z\n"))
+		rt.Reach("entry-name-with-variable")
+	}
 	// actual text: arbitrary short bytes, or a text containing a marker line
 	var actual string
 	marker := false
